@@ -74,7 +74,7 @@ def gen_case(rng, idx, tier):
         case["patterns"] = scenario.gen_selection(rng, names)
         return case
     if lane == "direct":
-        reps = scenario.REPRESENTABLE[sched]
+        reps = scenario.REPRESENTABLE[sched] + (("sge_error",) if sched == "sge" else ())
         case["bstate"] = {n: rng.choice(reps) if rng.random() < 0.6 else "unknown" for n in names}
         case["ghost"] = [n for n in names if case["bstate"][n] == "unknown" and rng.random() < 0.2]
         case["patterns"] = scenario.gen_selection(rng, names)
@@ -94,8 +94,19 @@ def setup(case, proj):
     variant = [{"name": t["name"], "ins_expr": repr(gen.respell_list(sr, t["ins"], proj.root)), "outs_expr": repr(gen.respell_list(sr, t["outs"], proj.root, 0.1)), "spec": t["spec"], "route": "target"} for t in ts]
     proj.write_workflow(gen.render_workflow(variant))
     proj.write_config({"backend": case["sched"]})
+    srcs = set(case["dag"]["sources"])
     for f, tk in case["ticks"].items():
-        proj.set_file(f, tk)
+        if case.get("wide"):
+            proj.set_file(f, tk)
+        elif f in srcs and tk is not None and sr.random() < 0.2:
+            # a source that is a symbolic link to data kept elsewhere; the link itself is dated the other way round
+            proj.set_file(f, tk, symlink=True, link_tick=3 if tk < 2 else 0)
+        elif f not in srcs and tk is None and sr.random() < 0.1:
+            os.makedirs(os.path.join(proj.base, "outside"), exist_ok=True)
+            os.makedirs(os.path.dirname(proj.path(f)) or proj.root, exist_ok=True)
+            os.symlink(os.path.join(proj.base, "outside", "not_yet_" + os.path.basename(f)), proj.path(f))  # dangling: still missing
+        else:
+            proj.set_file(f, tk)
     mts = [dict(t, wd=proj.root) for t in ts]
     deps, _, _ = model.dependency_relation(mts)
     return mts, deps
